@@ -62,16 +62,16 @@ Round ==
    /\ Running
    /\ Tick([op |-> "Round"])
    /\ IF reg = {}
-      THEN out' = "nopeers" /\ UNCHANGED <<head, acc, pool, queue, pend, done, slot, offset, lacks, faults, broken, delivered, old, reg, busy, fin>>
+      THEN out' = "nopeers" /\ UNCHANGED <<base, sess, head, acc, pool, queue, pend, done, slot, offset, lacks, faults, broken, delivered, old, reg, busy, fin>>
       ELSE IF EmptyQ(queue)
       THEN /\ out' = IF ~InFlightNow /\ fin THEN "done" ELSE "run"
-           /\ UNCHANGED <<head, acc, pool, queue, pend, done, slot, offset, lacks, faults, broken, delivered, old, reg, busy, fin>>
+           /\ UNCHANGED <<base, sess, head, acc, pool, queue, pend, done, slot, offset, lacks, faults, broken, delivered, old, reg, busy, fin>>
       ELSE \E order \in Perms(reg \ busy) :
              LET st == RoundFold(order, 1, [q |-> queue, slot |-> slot, done |-> done, pool |-> pool, pend |-> pend, busy |-> busy,
                                             progressed |-> FALSE, throttled |-> FALSE, running |-> InFlightNow, stop |-> FALSE]) IN
              /\ queue' = st.q /\ slot' = st.slot /\ done' = st.done /\ pool' = st.pool /\ pend' = st.pend /\ busy' = st.busy
              /\ out' = IF ~st.progressed /\ ~st.throttled /\ ~st.running /\ busy = {} /\ ~EmptyQ(st.q) THEN "unavail" ELSE "run"
-             /\ UNCHANGED <<head, acc, offset, lacks, faults, broken, delivered, old, reg, fin>>
+             /\ UNCHANGED <<base, sess, head, acc, offset, lacks, faults, broken, delivered, old, reg, fin>>
 
 Answer(p, v) ==
    /\ Running /\ p \in busy /\ pend[p] # <<>>
@@ -80,7 +80,7 @@ Answer(p, v) ==
    /\ IF IsFault(p, v) THEN Charge ELSE faults' = faults
    /\ LET stale == Matched(pend[p], v[2], 1) = 0 /\ v[2] # <<>> IN busy' = IF stale THEN busy ELSE busy \ {p}
    /\ DeliverCore(p, v[2])
-   /\ UNCHANGED <<head, acc, offset, broken, delivered, old, reg, fin, out>>
+   /\ UNCHANGED <<base, sess, head, acc, offset, broken, delivered, old, reg, fin, out>>
 
 \* expire(): the request goes back to the queue.  A request of more than two items that times out does not get the peer
 \* dropped: it is marked idle again (setIdle(peer, 0)) -- also an honest peer may be slow like that; smaller requests
@@ -93,7 +93,7 @@ Timeout(p) ==
    /\ queue' = PushAll(queue, pend[p]) /\ pend' = [pend EXCEPT ![p] = <<>>]
    /\ reg' = IF Len(pend[p]) > 2 THEN reg ELSE reg \ {p}
    /\ busy' = busy \ {p}
-   /\ UNCHANGED <<head, acc, pool, done, slot, offset, lacks, broken, delivered, old, fin, out>>
+   /\ UNCHANGED <<base, sess, head, acc, pool, done, slot, offset, lacks, broken, delivered, old, fin, out>>
 
 Drain == /\ Processable(1) > 0 /\ Results /\ Frame        \* the consumer goes on after the loop returned
 
@@ -104,7 +104,7 @@ LSpec == LInit /\ [][LNext]_lvars
 \* "the full range completes as long as some peer eventually answers honestly": the loop never gives up while an honest
 \* peer is connected
 NeverGivesUp == out \in {"unavail", "nopeers"} => Honest \cap reg = {}
-DoneMeansAll == out = "done" => (\A h \in 1..N : h \in DeliveredSet \/ h \in done)
+DoneMeansAll == out = "done" => (\A h \in (base + 1)..N : h \in DeliveredSet \/ h \in done)
 
 LLive == /\ LSpec /\ WF_lvars(LSchedule) /\ WF_lvars(LHeadersDone) /\ WF_lvars(Round) /\ WF_lvars(Drain)
          /\ \A p \in Peers : WF_lvars(Timeout(p) \/ \E v \in Variants(p) : Answer(p, v))
